@@ -230,6 +230,39 @@ func TestC06(t *testing.T) {
 			}
 		}
 	}
+	// a forged request naming an identity the pool has never heard from, then that
+	// identity's very first own request: it must be accepted like any other
+	for _, driver := range vlib.Drivers() {
+		for i := 0; i < vlib.Scale(6, 60); i++ {
+			lw, err := authWorld(driver, i)
+			if err != nil {
+				continue
+			}
+			w := lw.w
+			for _, style := range []string{"node", "wallet"} {
+				fresh := vlib.NewIdentity("c06fresh-"+style, i)
+				attacker := vlib.NewIdentity("c06attacker", 1000+i)
+				identity, method := fresh.NodeID, "vipnode_connect"
+				var args []interface{} = []interface{}{vlib.ConnectReq(false, "geth", "", "")}
+				if style == "wallet" {
+					identity, method, args = fresh.Wallet, "pool_addNode", []interface{}{lw.clients[0].NodeID}
+				}
+				n := w.NextNonce(identity) + int64(time.Minute)
+				forged := guardedCall(w.Local, method, append([]interface{}{vlib.RefSign(attacker.Key, method, identity, n, args...), identity, n}, args...)...)
+				own := w.NextNonce(identity)
+				first := guardedCall(w.Local, method, append([]interface{}{vlib.RefSign(fresh.Key, method, identity, own, args...), identity, own}, args...)...)
+				ev.Case(fmt.Sprintf("%s/forged-before-first-own-request/%s/%d", driver, style, i), true)
+				ev.Count("forged-before-first-own-request", 1)
+				if !forged.Verify {
+					ev.Violate("not-refused:"+method+":wrong-key-for-unknown-identity", map[string]interface{}{"style": style, "err": fmt.Sprint(forged.Err)})
+				}
+				if !first.Accepted || first.Panic != "" {
+					ev.Violate("first-own-request-refused-after-forged-one:"+method, map[string]interface{}{"style": style, "err": fmt.Sprint(first.Err), "panic": first.Panic})
+				}
+			}
+			w.Close()
+		}
+	}
 	finish(t, ev)
 }
 
